@@ -8,6 +8,7 @@ linearly ordered field.
 import Wheatley.Lemmas.Regress
 import Wheatley.Lemmas.Rhythm
 import Wheatley.Lemmas.Cli
+import Wheatley.Lemmas.LiftReg
 namespace Wheatley.C12
 open Generated
 
@@ -153,6 +154,84 @@ theorem look_to_forgets_data (r : Reg K) (reg : List (K × K × K) → K × K) (
     split
     · rw [List.length_tail]; exact le_trans (Nat.sub_le _ _) (List.length_filter_le _ _)
     · exact List.length_filter_le _ _
+
+/-! ### The whole system: the memory stays bounded -/
+section System
+
+/-- The regression remembers fewer than `max_bells` strikes. -/
+def Mem (r : Reg K) : Prop := 1 ≤ r.maxBells ∧ (r.dataSet.length : Int) < r.maxBells
+
+theorem relerp_keeps (q : Reg K) (fit : K × K) (i : K) :
+    (q.relerp fit i).dataSet = q.dataSet ∧ (q.relerp fit i).maxBells = q.maxBells := by
+  unfold Reg.relerp
+  cases q.start <;> exact ⟨rfl, rfl⟩
+
+theorem addDataPoint_keeps (r : Reg K) (reg : List (K × K × K) → K × K) (row place : Nat) (t w : K) :
+    (r.addDataPoint reg row place t w).dataSet = r.newDataSet row place t w ∧
+    (r.addDataPoint reg row place t w).maxBells = r.maxBells := by
+  unfold Reg.addDataPoint
+  simp only []
+  by_cases h1 : Num.eqb (if 0 < row then r.preferredInertia else r.initialInertia) (Num.ofNat 1 : K) = true
+  · rw [if_pos h1]; exact ⟨rfl, rfl⟩
+  · rw [if_neg h1]
+    by_cases h2 : r.minBells ≤ ((r.newDataSet row place t w).length : Int)
+    · rw [if_pos h2]; exact relerp_keeps _ _ _
+    · rw [if_neg h2]; exact ⟨rfl, rfl⟩
+
+theorem addDataPoint_mem (r : Reg K) (reg : List (K × K × K) → K × K) (row place : Nat) (t w : K) (h : Mem r) :
+    Mem (r.addDataPoint reg row place t w) := by
+  obtain ⟨a, b⟩ := addDataPoint_keeps r reg row place t w
+  unfold Mem
+  rw [a, b]
+  exact ⟨h.1, memory_bounded r row place t w h.1 h.2⟩
+
+theorem onBellRing_mem (r : Reg K) (wt : K → K) (g : List (K × K × K) → K × K) (bell : Nat) (hand : Bool) (t : K)
+    (h : Mem r) : Mem (r.onBellRing wt g bell hand t) := by
+  unfold Reg.onBellRing
+  split
+  · exact h
+  · rename_i row place _
+    simp only []
+    have h1 : Mem (if Num.eqb (r.blowTime row place) (Num.ofNat 0) = true then { r with start := .fin t } else r) := by
+      split <;> exact h
+    exact addDataPoint_mem _ g _ _ _ _ h1
+
+theorem initialiseLine_mem (r : Reg K) (g : List (K × K × K) → K × K) (stage : Nat) (ut : Bool) (t : K) (h : Mem r) :
+    Mem (r.initialiseLine g stage ut t) := by
+  have h0 : Mem (r.resetForTouch stage) := ⟨h.1, by show ((0 : Nat) : Int) < r.maxBells; have := h.1; omega⟩
+  unfold Reg.initialiseLine
+  split
+  · exact addDataPoint_mem _ g 0 0 t _ h0
+  · exact h0
+
+theorem changePealSpeed_mem (r : Reg K) (s t : K) (h : Mem r) : Mem (r.changePealSpeed s t) := by
+  unfold Reg.changePealSpeed
+  simp only []
+  split
+  · exact h
+  · split <;> exact h
+
+/-- `Mem` is preserved by every operation on the rhythm. -/
+theorem memInvariant : RegInvariant (Mem (K := K)) :=
+  { bellRing := onBellRing_mem, init := initialiseLine_mem, expect := fun _ _ _ _ _ h => h,
+    speed := changePealSpeed_mem, flag := fun _ _ h => h, inertia := fun _ _ h => h }
+
+/-- **The memory turns over - in every run.**  In every state of every run, for *all* events at any times (strikes
+early, late or wrong, Look To and its sleeping handler, speed and inertia settings, Stop Touch, several touches),
+the regression holds fewer than `max_bells` strikes.  So once the band has struck that many times on a new line,
+nothing of the old line is left in what Wheatley fits (`forgets_oldest`: it is the oldest point that goes), and
+`wls_recovers` puts the fit on the new line. -/
+theorem memory_stays_bounded (wt : K → K) (endTime : K) (fuel : Nat) (w : World K) (events : List (K × Ev))
+    (h : Mem w.rh.reg) :
+    ((World.run wt endTime fuel w events).1.rh.reg.dataSet.length : Int) <
+      (World.run wt endTime fuel w events).1.rh.reg.maxBells :=
+  (memInvariant.run wt endTime fuel w events h).2
+
+/-- A newly created rhythm (empty data set, `max_bells ≥ 1`) satisfies the invariant. -/
+example : Mem (Reg.init (1 : ℚ) 180 1 4 15 0) := by
+  constructor <;> decide
+
+end System
 
 /-! ### The command line (`Model/Cli.lean`: `console_main`) -/
 
